@@ -33,18 +33,50 @@ class DimwiseCheck(Check):
 
     def gen(self, rk, tier, idx):
         r = stream(rk, "cfg")
-        return {"config": DS.gen_cfg(r, tier), "ops": []}
+        cfg = DS.gen_cfg(r, tier)
+        add_two_legs(cfg, stream(rk, "legs"))
+        return {"config": cfg, "ops": []}
 
     def simplify(self, s):
-        return DS.simplify_cfg(s)
+        for c in DS.simplify_cfg(s):
+            yield c
+        if s["config"].get("two_legs"):
+            n = copy.deepcopy(s); n["config"]["two_legs"] = None; yield n
 
     def execute(self, sched, ctx):
         sim = DS.DimwiseSim(sched["config"], sched["rk"], ctx, self.monitors())
         sim.build()
-        try:
-            sim.perform(tol=-1.0, max_evaluations=None, stop_after=sched["config"]["evals"])
-        except DS.StopRun:
-            pass
+        run_history(sim, sched["config"], ctx)
+
+
+def add_two_legs(cfg, r, p=0.25):
+    """a share of the histories is interrupted by the documented stop mechanism (a point limit) and continued - through
+    continue_adaptive_refinement or through a new driver call that is handed the returned container; the clauses hold at the
+    return of the first call, during the first evaluation of the continued run and afterwards"""
+    cfg["two_legs"] = {"limit": r.choice([0, 5, 12, 25, 50, 100]), "route": r.choice(["continue", "restart"])} if r.random() < p else None
+    if cfg["two_legs"]:
+        cfg["use_epoch"] = False       # answers keyed by the interval alone: a continuation re-asks before it decides
+
+
+def run_history(sim, cfg, ctx, **build_kw):
+    legs = cfg.get("two_legs")
+    try:
+        if not legs:
+            sim.perform(tol=-1.0, max_evaluations=None, stop_after=cfg["evals"])
+            return
+        ret = sim.perform(tol=-1.0, max_evaluations=legs["limit"], stop_after=max(cfg["evals"], 1) + 8)
+        ctx.fault("stop@k")
+        for m in sim.monitors:
+            m.on_return(sim, ret)
+        more = sim.n_eval + max(1, cfg["evals"])
+        if legs["route"] == "continue":
+            ctx.probe("continued")
+            ret = sim.cont(tol=-1.0, max_evaluations=None, stop_after=more)
+        else:
+            ctx.probe("container_restart"); ctx.fault("container_restart")
+            ret = sim.perform(tol=-1.0, max_evaluations=None, stop_after=more, refinement_container=ret[0])
+    except DS.StopRun:
+        pass
 
 
 class C06(DimwiseCheck):
@@ -109,6 +141,11 @@ class C04(DimwiseCheck):
             p = stream(rk, "probes")
             cfg["probes"] = [["ml", [[round(p.uniform(-2, 2), 3), round(p.uniform(-2, 2), 3)] for _ in range(cfg["dim"])]] for _ in range(3)] + \
                             DS.linear_probes(p, cfg["dim"], 1)
+            add_two_legs(cfg, stream(rk, "legs"))
+            if cfg["two_legs"] and (strategy == "cell" or cfg.get("version") != 0 or cfg.get("automatic")):
+                # the second continuation route evaluates every area again from scratch; where that is known to take another path
+                # than the incremental bookkeeping (recorded under C14) only the documented continuation is driven
+                cfg["two_legs"]["route"] = "continue"
             return {"config": cfg, "ops": []}
         cfg = DS.gen_cfg(r, tier)
         cfg["strategy"] = strategy
@@ -121,6 +158,7 @@ class C04(DimwiseCheck):
         else:
             probes = DS.initial_space_probes(p, cfg, 4)
         cfg["probes"] = probes
+        add_two_legs(cfg, stream(rk, "legs"))
         return {"config": cfg, "ops": []}
 
     def monitors(self):
@@ -144,10 +182,7 @@ class C04(DimwiseCheck):
             from engines import extendsplit_sim as ES
             sim = (ES.ExtendSplitSim if st == "extend_split" else ES.CellSim)(cfg, sched["rk"], ctx, self.monitors())
         sim.build(probes=cfg["probes"])
-        try:
-            sim.perform(tol=-1.0, max_evaluations=None, stop_after=cfg["evals"])
-        except DS.StopRun:
-            pass
+        run_history(sim, cfg, ctx)
 
 
 CHECKS["C04"] = C04
